@@ -17,6 +17,11 @@ def polarity(cond, name):
     call = r"&?(?:\w+(?:\.\w+\(\))*\.|\w+::)*" + re.escape(name) + r"\([^()]*(?:\([^()]*\)[^()]*)*\)"
     if re.fullmatch(r"if" + call, c) or re.fullmatch(r"match" + call + r"=>true", c) or re.fullmatch(r"elseofif!" + call, c) or re.fullmatch(r"if" + call + r"==true", c):
         return 1
+    # Option-valued form of a predicate (`fn safe_key() -> Option<Key>`: Some(key) iff the predicate holds)
+    if re.fullmatch(r"match" + call + r"=>Some\(.*\)", c) or re.fullmatch(r"ifletSome\(.*\)=" + call, c) or re.fullmatch(r"if" + call + r"\.is_some\(\)", c):
+        return 1
+    if re.fullmatch(r"match" + call + r"=>None", c) or re.fullmatch(r"elseofifletSome\(.*\)=" + call, c) or re.fullmatch(r"if" + call + r"\.is_none\(\)", c):
+        return -1
     if re.fullmatch(r"if!" + call, c) or re.fullmatch(r"match" + call + r"=>false", c) or re.fullmatch(r"elseofif" + call, c):
         return -1
     return None
